@@ -258,7 +258,14 @@ impl ArenaModel {
         out.cov = world.cov;
         out.outcome = world.outcome;
         out.terminal = world.terminal;
-        out.key = *world.keys.last().unwrap();
+        // the alphabet depends on the phase (inner levels vs. last level; for the sweeps on the exact
+        // depth), so the phase is part of the state: a state first seen early is expanded again with the
+        // last-level alphabet when it is reached at depth max-1
+        let phase: u128 = match self.profile {
+            Profile::ApiSweep | Profile::LayerA => 1 + n as u128,
+            _ => (n + 1 >= self.max_depth) as u128,
+        };
+        out.key = *world.keys.last().unwrap() ^ (phase.wrapping_mul(0x9e3779b97f4a7c15f39cc0605cedc835));
         if want_enabled && !world.terminal {
             let p = world.observe();
             out.enabled = self.enabled(&world, &p, n, cfg.aux);
